@@ -297,7 +297,9 @@ func (s *storage) bootstrap(config Config) (err error) {
 		}
 	}()
 	s.appendEntry(config.encode())
+	verifPoint("bootstrap.appended", s)
 	s.commitLog(1)
+	verifPoint("bootstrap.flushed", s)
 	s.setTerm(1)
 	s.lastLogIndex, s.lastLogTerm = config.Index, config.Term
 	return nil
